@@ -105,7 +105,7 @@ theorem C07_replace (U : Universe) (hints : List (List Ent)) (ops : List Op) (p 
 /-- An explicit priority — any integer, zero and negatives included — overrides the class default. -/
 theorem C07_explicit_priority (U : Universe) (s : St) (p : Obj) (v : Int) :
     priority U (setPrio s p (some v)) p = v ∧
-    ∀ s1, SameTables (insertProc U (setPrio s p (some v)) p) s1 → priority U s1 p = v := by
+    ∀ s1, SameTables U (insertProc U (setPrio s p (some v)) p) s1 → priority U s1 p = v := by
   refine ⟨by simp [priority, setPrio, Dict.get?_set], ?_⟩
   intro s1 h
   have : s1.prio = Dict.set s.prio p v := h.prio
